@@ -7,7 +7,7 @@ from . import common
 
 ID = 'C02'
 LEVEL = 'exploration'
-BUDGET = {'quick': (3000, 70.0), 'thorough': (120000, 1500.0)}
+BUDGET = {'quick': (12000, 80.0), 'thorough': (200000, 1500.0)}
 RULE = ('seeded swarm generation of 2-3 real J1939-22 stacks; per originator 1-8 RTS/CTS and 0-4 BAM messages (61..20000 bytes) '
         'submitted within a short window, one or both directions, plus send_pgn calls beyond capacity while sessions are in flight; '
         'non-trivial = at least one FD transport session ran; distinct = distinct scenario JSON')
